@@ -14,6 +14,8 @@ EXPLANATION = (
     "CheckedAdd::checked_add followed by unwrap (no +, wrapping, saturating). R02-merge: see C06 (cell-wise +, guards on d, w, hasher)."
     ' R02-return-min additionally requires that the un-folded alternative (seeding the minimum with the cell itself) sits under the fact `row == 0`. R02-is-empty: is_empty is `every cell is zero` over the whole table. R02-merge: every returning path of merge performs the cell-wise addition.'
 )
+from .common import NEW_WRITERS_NOTE as _NWN
+EXPLANATION = EXPLANATION + _NWN % "02"
 NOT_DECIDED = "the numeric bounds themselves (they follow from the decided premises plus monotonicity of + on unsigned counters)"
 ASSUMPTIONS = ["HashIter yields exactly k values in [0,m) (R01-hashiter-range, C01)", "Ord::min on counters is the minimum"]
 
@@ -21,6 +23,8 @@ CMS = "countminsketch::CountMinSketch"
 
 
 def run(ctx):
+    from .common import check_new_writers
+    check_new_writers(ctx, "R02-new-writers", ['countminsketch::CountMinSketch'])
     prog = ctx.prog
     add_n = ctx.anchor(CMS + "::add_n")
     qp = ctx.anchor(CMS + "::query_point")
